@@ -105,7 +105,8 @@ def split_ndjson(path, chunk, header=False):
     return parts
 
 
-VERDICT_RE = re.compile(r'^<<"V", (\d+), "([^"]*)", "([^"]*)", "([^"]*)">>', re.M)
+# TLC wraps long tuples over several lines: tolerate any whitespace between the elements
+VERDICT_RE = re.compile(r'<<\s*"V",\s*(\d+),\s*"([^"]*)",\s*"([^"]*)",\s*"([^"]*)"\s*>>')
 
 
 def judge_expr(trace_path, tag, timeout=1800, heap="6g", module="Judge_Expr"):
@@ -116,6 +117,9 @@ def judge_expr(trace_path, tag, timeout=1800, heap="6g", module="Judge_Expr"):
     verdicts = {int(m.group(1)): (m.group(2), m.group(3), m.group(4)) for m in VERDICT_RE.finditer(res.out)}
     if res.post_failed:
         raise ToolError("judge did not consume every record")
+    nrec = sum(1 for line in open(trace_path) if '"case"' in line)
+    if len(verdicts) != nrec:
+        raise ToolError(f"{module}: {nrec} records but {len(verdicts)} verdict lines parsed from the TLC output ({trace_path})")
     return res, verdicts
 
 
